@@ -45,12 +45,13 @@ def run(ctx: Ctx):
         mets = ["ENERGY", "LATENCY"]
         base = {"params": p, "metrics": mets, "eval_in_detail": False}
         variants = [("seq", {**base, "n_jobs": 1}, {"PYTHONHASHSEED": "0"}),
-                    ("par4", {**base, "n_jobs": 4}, {"PYTHONHASHSEED": "0"}),
-                    ("par16", {**base, "n_jobs": 16}, {"PYTHONHASHSEED": "0"})]
-        for sd in ([1, 2, 3, 4, 5, 6] if ctx.thorough else [1, 2, 3]):
+                    ("par4", {**base, "n_jobs": 4}, {"PYTHONHASHSEED": "0"})]
+        if ctx.thorough:
+            variants.append(("par16", {**base, "n_jobs": 16}, {"PYTHONHASHSEED": "0"}))
+        for sd in ([1, 2, 3, 4, 5, 6] if ctx.thorough else [1, 2]):
             variants.append((f"sched{sd}", {**base, "n_jobs": 4, "fake_parallel": True, "schedule_seed": ctx.seed * 100 + sd},
                              {"PYTHONHASHSEED": "0"}))
-        for hs in ("1", "12345"):
+        for hs in (("1", "12345") if ctx.thorough else (str(1 + ctx.seed % 7919),)):
             variants.append((f"hash{hs}", {**base, "n_jobs": 1}, {"PYTHONHASHSEED": hs}))
         cdir = os.path.join(cache_root, f"s{s}")
         variants.append(("cache-cold", {**base, "n_jobs": 1, "cache_dir": cdir}, {"PYTHONHASHSEED": "0"}))
